@@ -51,6 +51,8 @@ pub enum SimPkt {
     PubAck(u16),
     PubRec(u16),
     PubRel(u16),
+    /// MQTT 5 PUBREL carrying properties (a user property): same meaning.
+    PubRelProps(u16),
     PubComp(u16),
     PingReq,
     Disconnect,
@@ -119,6 +121,8 @@ pub struct Sub {
     pub restored: bool,
     /// The one-off retained replay of this subscription is certainly over.
     pub replay_closed: bool,
+    /// Subscription identifier over time: (accepted count when set, id).
+    pub sub_id_hist: Vec<(usize, Option<usize>)>,
 }
 
 #[derive(Clone, Debug, PartialEq, Eq)]
@@ -309,6 +313,25 @@ impl Sub {
     /// May a forward of accepted message `m` on this subscription carry
     /// `qos`? Yes if that QoS was the granted one at some moment at or after
     /// the message was accepted (it may have been forwarded any time since).
+    /// Identifiers a forward of accepted message `m` may carry.
+    pub fn sub_id_ok_for(&self, m: usize, got: &[usize]) -> bool {
+        for (i, (_, id)) in self.sub_id_hist.iter().enumerate() {
+            let matches = match id {
+                Some(x) => got == [*x],
+                None => got.is_empty(),
+            };
+            if !matches {
+                continue;
+            }
+            match self.sub_id_hist.get(i + 1) {
+                None => return true,
+                Some((t_next, _)) if *t_next > m => return true,
+                _ => {}
+            }
+        }
+        false
+    }
+
     pub fn qos_ok_for(&self, m: usize, qos: u8) -> bool {
         for (i, (_, q)) in self.qos_hist.iter().enumerate() {
             if *q != qos {
@@ -654,7 +677,7 @@ impl Spec {
                         }
                     }
                 }
-                SimPkt::PubRel(pkid) => {
+                SimPkt::PubRel(pkid) | SimPkt::PubRelProps(pkid) => {
                     let Some(a) = self.conns[c].qos2_in.pop_front() else {
                         self.close(c, "pubrel_without_publish");
                         effects.push(Effect::Close(c, "pubrel_without_publish"));
@@ -719,8 +742,9 @@ impl Spec {
                                 s.qos = *qos;
                                 s.qos_hist.push((t0, *qos));
                             }
-                            if sub_id.is_some() {
+                            if sub_id.is_some() && s.sub_id != *sub_id {
                                 s.sub_id = *sub_id;
+                                s.sub_id_hist.push((t0, *sub_id));
                             }
                         } else {
                             subs.push(Sub {
@@ -741,6 +765,7 @@ impl Spec {
                                 qos_hist: vec![(t0, *qos)],
                                 restored: false,
                                 replay_closed: false,
+                                sub_id_hist: vec![(t0, *sub_id)],
                             });
                             for pv in self.conns[c].posvecs.iter_mut() {
                                 pv.pos.push(pos);
